@@ -6,7 +6,7 @@ import runlib
 import faultgen
 import c12
 
-THEOREMS = ["Gen.linkage_spec", "Gen.callconv_spec"]
+THEOREMS = ["Gen.linkage_spec", "Gen.callconv_spec", "Gen.private_fast"]
 
 
 def source_functions(src):
@@ -97,6 +97,16 @@ def main():
             problems.append("the program exits with status %s, the members of its literals add up to %d" % (hd.get("status"), expected_status[ji]))
         if hd.get("verify") != "ok":
             problems.append("LLVM tools reject the IR: " + hd.get("verify", "?"))
+        # calling conventions: every direct call uses the convention of its callee (a mismatch is undefined behaviour that
+        # neither llvm-as nor the verifier reports); `main` and `extern` functions use the C convention, all others fastcc
+        if hd.get("callcc", "ok") != "ok":
+            problems.append("a call does not use the calling convention of its callee: " + hd["callcc"])
+        ccs = dict(x.rsplit(":", 1) for x in hd.get("ccs", "").split(",") if ":" in x)
+        for _, src in u:
+            for (fname, is_pub, is_ext) in source_functions(src):
+                want_cc = "c" if (is_ext or fname == "main") else "fast"
+                if fname in ccs and ccs[fname] != want_cc and list(ccs).count(fname) == 1:
+                    problems.append("function %s is defined with the %s calling convention, the model (Gen.callconv) says %s" % (fname, ccs[fname], want_cc))
         defs = dict(x.rsplit(":", 1) for x in hd.get("defs", "").split(",") if ":" in x)
         linked = dict(x.rsplit(":", 1) for x in hd.get("linkeddefs", "").split(",") if ":" in x)
         seen_private = collections.Counter()
